@@ -89,7 +89,20 @@ VF_MAIN
   VF_ASSUME(in_len <= 8 && in_olen <= 3);
   s.at.all = in_at; s.step.all = in_step; s.step_step.all = in_ss; s.len = (int)in_len;
   s.input = inbuf + 24;                   /* context: LEN/2-1 samples before, LEN/2 + len + step after */
-#if VF_OP == 1
+#if VF_OP == 1 && defined VF_FADE      /* cross-fade variant: writes every second slot of the 2x-rate buffer, one frame per iteration */
+  { static float vol[32];
+  o = poly_fir_fade_u(&s, vol + 16, VF_FADE, outbuf, (int)in_olen * 2);
+  VF_ASSERT(o >= 0 && o <= (int)in_olen * 2 && !(o & 1), "poly_fir_fade_u: 0 <= samples <= requested, whole frames");
+  for (k = 0; k < 3; ++k) if (2 * k < o) { at += st; st += in_ss; }
+  VF_ASSERT(s.at.all == at && s.step.all == st, "cross-fade kernel, per output frame: position += step, then step += step_step, exactly once (C16)");
+  if (o < (int)in_olen * 2) VF_ASSERT(INT(s.at) >= (int)in_len, "stops only when the input is exhausted (C16/C08)"); }
+#elif VF_OP == 2 && defined VF_FADE
+  { static float vol[32];
+  o = poly_fir_fade_d(&s, vol + 16, VF_FADE, outbuf, (int)in_olen * 2);
+  VF_ASSERT(o >= 0 && o <= (int)in_olen * 2 && !(o & 1), "poly_fir_fade_d: 0 <= samples <= requested, whole frames (an incomplete pair is rolled back)");
+  for (k = 0; k < 3; ++k) if (2 * k + 1 < o) { at += st; at += st; st += in_ss; }
+  VF_ASSERT(s.at.all == at && s.step.all == st, "cross-fade kernel, per output frame (pair of 2x samples): position += 2*step, step += step_step once (C16)"); }
+#elif VF_OP == 1
   o = poly_fir_u(&s, outbuf, (int)in_olen);
   VF_ASSERT(o >= 0 && o <= (int)in_olen, "poly_fir_u: 0 <= frames <= requested");
   for (k = 0; k < 3; ++k) if (k < o) { at += st; st += in_ss; }
